@@ -138,6 +138,32 @@ def handleTREC (clock objs bpms : String) : String :=
 
 /-- `PIPE taiko <bytes> <mods> <rate|-> <take|-> <sum0> <great hit window> <ok hit window>` →
 `R<rhythm> D<reading> C<color> T<stamina> M<mono_stamina_factor> S<stars> X<max_combo> V<is_convert>` -/
+def taikoStarsOfSkills (sum0 : Nat) (rx : Bool) (sk : Rosu.TaikoSkill.Skills Float) : StarsWire.TaikoOut :=
+  let bitsOfPeaks := fun {σ : Type} (st : StateV Float σ) => (exportPeaksV st).map bitsOf
+  StarsWire.taikoEval sum0 rx false (bitsOfPeaks sk.rhythm) (bitsOfPeaks sk.reading)
+    (bitsOfPeaks sk.color) (bitsOfPeaks sk.stamina) (bitsOfPeaks sk.singleColorStamina)
+    (sk.stamina.objectStrains.map bitsOf)
+
+/-- the gradual values of a native taiko file: `stars:max_combo` per `next()` until `None` -/
+def taikoGradual (bytes mods rate sum0 hw : String) : String :=
+  let A := secArith 400.0
+  let custom := if rate == "-" then none else some (hexToNat rate)
+  let rx := (nat! mods) / 128 % 2 == 1
+  match Rosu.DecodeLine.fromBytes (hexBytes bytes) with
+  | none => "-"
+  | some d =>
+    match Rosu.PipelineTaiko.recordsOf ieeeTOps d (fOf (Rosu.PipelineTaiko.clockRateBits (nat! mods) custom)) (nat! mods) with
+    | .ok (hits, recs) =>
+      let vals := Rosu.PipelineTaiko.gradualValues A driverFuel (fOf (hexToNat hw)) hits recs
+      let steps := vals.filterMap fun v =>
+        match v with
+        | .some (mc, .ok sk) => some s!"{StarsWire.showZ (taikoStarsOfSkills (hexToNat sum0) rx sk).stars}:{mc}"
+        | .some (_, _) => some "X"
+        | .none => none
+        | .panic => some "P"
+      SliderEvents.showLong steps
+    | _ => "-"
+
 def handlePIPEtaiko (bytes mods rate take sum0 hw : String) : String :=
   let A := secArith 400.0
   let custom := if rate == "-" then none else some (hexToNat rate)
@@ -154,5 +180,8 @@ def handlePIPEtaiko (bytes mods rate take sum0 hw : String) : String :=
       (bitsOfPeaks sk.color) (bitsOfPeaks sk.stamina) (bitsOfPeaks sk.singleColorStamina)
       (sk.stamina.objectStrains.map bitsOf)
     s!"R{StarsWire.showZ o.rhythm} D{StarsWire.showZ o.reading} C{StarsWire.showZ o.color} T{StarsWire.showZ o.stamina} M{StarsWire.showZ o.monoStaminaFactor} S{StarsWire.showZ o.stars} X{mc} V0"
+
+def handlePIPEtaikoG (bytes mods rate take sum0 hw : String) : String :=
+  handlePIPEtaiko bytes mods rate take sum0 hw ++ " G" ++ taikoGradual bytes mods rate sum0 hw
 
 end Rosu.PipelineWire
